@@ -493,7 +493,7 @@ def predicates(c, er) -> List[Tuple[str, str]]:
             _, idn, crow = _table(comp)
             _, _, arow = _table(al)
             st, dp = engine_inputs(c)
-            inp = {tuple(canon_in(r[n], n, c) for n in idn): r for r in dp["DS_1"].to_dict("records")}
+            inp = {tuple(r[n] for n in idn): r for r in dp["DS_1"].to_dict("records")}
             ck = {_key(r, idn): r for r in crow}
             ak = {_key(r, idn): r for r in arow}
             if len(ck) != len(crow) or len(ak) != len(arow):
@@ -583,15 +583,7 @@ def predicates(c, er) -> List[Tuple[str, str]]:
         n_in = len(dp["DS_1"])
         if len(arow) != n_in * len(c["rules"]):
             out.append(("check_datapoint:all-incomplete", f"`all` has {len(arow)} rows for {n_in} datapoints x {len(c['rules'])} rules"))
-    if k == "chk_h" and am:
-        _, _, mrow = _table(am)
-        for r in mrow:
-            pass
     return out
-
-
-def canon_in(v, n, c):
-    return v
 
 
 # ------------------------------------------------------------------ case plumbing
